@@ -33,6 +33,8 @@ class Check:
     # ------------------------------------------------------------------ model checking
     def mc(self, module, cfg, expect_violation=False, workers=8, timeout=900, name=None, simulate=None, depth=None, env=None):
         log(f"[{self.prop}] TLC {module} {cfg}")
+        if self.tier == "thorough":
+            timeout *= 5          # the thorough configurations are run to completion, also on a busy machine
         r = tlc(module, cfg, workers=workers, timeout=timeout, name=name, simulate=simulate, depth=depth, env=env)
         self.mc_runs.append({"module": module, "cfg": cfg, "states": r["states"], "transitions": r["transitions"],
                              "wall_s": round(r["wall_s"], 1), "violation_found": r["violation"], "coverage": r["coverage"]})
